@@ -156,6 +156,87 @@ def range_dispatch(ctx, b, rule, prefix, repeat_fn):
               "%s: the unbounded case of {m,n} is no longer tied to n == i32::MAX" % b.id, site=b.where(sites[0]))
 
 
+IDENTITY_CALLS = ("to_string", "clone", "to_owned", "as_str", "as_ref", "borrow", "deref", "into", "from", "to_vec", "as_slice", "as_bytes")
+
+
+def key_is_lossless(body, o, depth=10):
+    """(ok, why): the operand is built from the function's parameters only through moves, borrows, tuple aggregates and
+    value-preserving conversions (to_string/clone/...); any other call or arithmetic on the way makes the key a derived
+    — possibly lossy — value"""
+    if depth <= 0:
+        return False, "provenance too deep"
+    if "k" in o or "fn" in o or "closure" in o:
+        return False, "constant"
+    pl = F.op_place(o)
+    if pl is None:
+        return False, "unknown operand"
+    l = pl[0]
+    if 1 <= l <= body.argc:
+        return True, ""
+    ds = body.defs().get(l, [])
+    if len(ds) != 1:
+        return False, "local with %d definitions" % len(ds)
+    bi, si, kind, payload = ds[0]
+    if kind == "call":
+        d = payload["f"].get("def", "?")
+        last = d.rsplit("::", 1)[-1]
+        if last in IDENTITY_CALLS and payload["args"]:
+            return key_is_lossless(body, payload["args"][0], depth - 1)
+        return False, "computed by %s" % d
+    if kind != "assign":
+        return False, "partial definition"
+    r = payload
+    if r["rv"] in ("use", "cast"):
+        return key_is_lossless(body, r["o"], depth - 1)
+    if r["rv"] in ("ref", "rawptr"):
+        return key_is_lossless(body, {"c": r["p"]}, depth - 1)
+    if r["rv"] == "agg" and r.get("kind") == "tuple":
+        for x in r["ops"]:
+            ok, why = key_is_lossless(body, x, depth - 1)
+            if not ok:
+                return ok, why
+        return True, ""
+    return False, "computed (%s)" % r["rv"]
+
+
+def memo_keys_lossless(ctx, R):
+    """Memoising functions (look-up and fill of the same map in one function, result returned on a hit): the key must be the
+    argument(s) themselves.  A key that is a *derived* value (a display name, a truncation, a hash) makes two different
+    arguments share one cached node.  Shared by C09-R4 and C06-R8."""
+    P = ctx.prog
+    n = 0
+    for i, b in sorted(P.bodies.items()):
+        if not P._is_code(b) or not i.startswith(("llguidance::grammar_builder::", "llguidance::json::compiler::", "llguidance::lark::compiler::")):
+            continue
+        sites = {}
+        for bi, t in b.calls():
+            d = t["f"].get("def", "")
+            last = d.rsplit("::", 1)[-1]
+            if not (("HashMap" in d or "IndexMap" in d or "hash::map" in d) and last in ("get", "insert", "contains_key", "get_mut") and len(t["args"]) >= 2):
+                continue
+            e0 = b.expr(t["args"][0])
+            fs = F.place_fields(e0[1]) if e0[0] in ("ref", "place") else []
+            key = fs[-1] if fs else ("param", L.root_local(b, e0))
+            sites.setdefault(key, []).append((bi, last, t["args"][1]))
+        for key, lst in sites.items():
+            kinds = {x[1] for x in lst}
+            # memoising = the cached *value* is fetched (`get`) and filled (`insert`) here; a registry that only tests
+            # `contains_key` to reject duplicates is not a memo table
+            if not ("insert" in kinds and kinds & {"get", "get_mut"}):
+                continue
+            n += 1
+            bad = []
+            for bi, last, o in lst:
+                ok, why = key_is_lossless(b, o)
+                if not ok:
+                    bad.append("%s key at %s: %s" % (last, b.where(bi), why))
+            nm = "%s.%s" % (i.rsplit("::", 1)[1], key[1] if isinstance(key[1], str) else "map-param")
+            ctx.check(not bad, R, "memo-key-is-argument:" + nm, "look-up and fill use the function's own argument(s) as the key",
+                      "%s memoises on a derived value (%s): two different arguments can share one cached result"
+                      % (i, "; ".join(bad)), site=b.where())
+    ctx.floor(R, "memoising functions (get + insert on one map)", n, 7)
+
+
 def run(ctx):
     P = ctx.prog
     # ------------------------------------------------------------------ R1 operator tables
@@ -285,6 +366,8 @@ def run(ctx):
         ctx.check(ins == want and rd == want, "C09-R4", "memo-private:" + fld, "%s is read and filled only by %s" % (fld, owner),
                   "memo cache GrammarBuilder.%s is filled by %s and read by %s (expected only %s): a repetition node can be returned for "
                   "a different count range" % (fld, sorted(x.rsplit("::", 1)[1] for x in ins), sorted(x.rsplit("::", 1)[1] for x in rd), owner))
+
+    memo_keys_lossless(ctx, "C09-R4")
 
     # ------------------------------------------------------------------ R3 JSON length bounds
     gs = ctx.body(JC + "::gen_json_string")
